@@ -12,6 +12,10 @@ def run(chk):
     traces = []
     for tau in range(2, 7):
         traces.append(P.run_clique(tau))
+    # neighbour values that are numbers, chosen so that elementary symmetric sums of them vanish exactly (1 - 1, 2 - 1 - 1, ...)
+    for tau, one, two, neg in ((3, [1], [], [2]), (4, [], [1], [2, 3]), (4, [1], [], [2]), (5, [1, 2], [], [3, 4]), (5, [1], [], [2]),
+                               (5, [], [1], [2, 3]), (4, [1, 2, 3], [], []), (5, [], [], [1, 2, 3, 4])) + (((6, [1, 2], [], [3, 4]), (6, [1], [2], [3, 4, 5])) if thorough else ()):
+        traces.append(P.run_clique(tau, one, two, neg))
     for n in range(3, 13 if thorough else 10):
         traces.append(P.run_cycle(n))
     for n in range(1, 7):
@@ -20,6 +24,30 @@ def run(chk):
     for n in range(1, 13):
         for k in range(0, n * (n - 1) // 2 + 1):
             traces.append(P.run_countmod(n, k))
+    # crash points: a count abandoned part-way (Ctrl-C on the slow brute force), then every count of that size again
+    from .. import crash
+    import gcmpy
+    crash.mc(chk)
+    n_ab = 0
+
+    def forget():
+        # the counters memoise their results (functools.lru_cache): start from an empty memo where that is possible, so that the
+        # abandoned call and the judged calls do real work (an implementation without cache_clear is simply exercised less)
+        for f in (gcmpy.Q, gcmpy.QQ):
+            if hasattr(f, "cache_clear"):
+                f.cache_clear()
+    for n in range(3, 7):
+        for fn, kk in ((gcmpy.QQ, n), (gcmpy.QQ, n * (n - 1) // 2 - 1), (gcmpy.Q, n)):
+            for frac in (0.2, 0.5, 0.85):
+                forget()
+                total = crash.count_lines(lambda: fn(n, kk))
+                forget()
+                out = crash.abort_at(lambda: fn(n, kk), max(1, int(frac * total)))
+                n_ab += out == "aborted"
+                forget()
+                for k in range(0, n * (n - 1) // 2 + 1):
+                    traces.append(P.run_count(n, k, with_qq=True))
+    chk.extra["counts_judged_after_an_abandoned_count"] = n_ab
     chk.exhaustive["Q and QQ against brute force for all n <= 6, all k; Q modulo five primes for all n <= 12, all k"] = True
     # connected-subgraph counter: every graph on <= 4 vertices, every vertex subset containing the focal vertex, every k
     for n in (2, 3, 4) + ((5,) if thorough else ()):
@@ -76,6 +104,6 @@ def run(chk):
 def replay(chk, data):
     c = data["trace"]["case"]
     k = c.get("kind")
-    tr = (P.run_clique(c["tau"]) if k == "clique" else P.run_cycle(c["n"]) if k == "cycle" else
+    tr = (P.run_clique(c["tau"], c.get("one_u", ()), c.get("two_u", ()), c.get("neg_u", ())) if k == "clique" else P.run_cycle(c["n"]) if k == "cycle" else
           P.run_count(c["n"], c["k"], c.get("with_qq", True)) if k == "count" else P.run_countmod(c["n"], c["k"]) if k == "countmod" else P.run_ncg(c))
     P.judge(chk, [tr], "replay", parallel=1)
